@@ -19,7 +19,7 @@ TRUSTED_BASE = [
     "Lean 4.33.0 kernel",
     "axioms: every audited theorem depends on at most propext, Classical.choice, Quot.sound (the audit would list a *._native.bv_decide.ax_* axiom per theorem if one appeared; none does)",
     "tools/extract.py copies constants/tables from the Rust source into lean/Wee/Gen (fails closed on a missing pattern)",
-    "tools/rs2lean.py translates the straight-line bit-level functions (moves.rs mod compact and Move constructors/accessors, Square helpers, Evaluation::mate_in_ply/is_terminal) into lean/Wee/Gen/MoveFns.lean; trusted: its parser and the table of primitive mappings in tools/rs2lean.NOTES.md; the bridge to the hand model is proved (Wee/Proofs/MoveFnsBridge.lean); stage 2 (tools/rs2lean2.py → Wee/Gen/CoreFns.lean, bridge Wee/Proofs/CoreFnsBridge.lean): impl BitBoard, Board::new and occupancy accessors, CastleRights, State::by_performing_move, ZobristHasher::hash, AttackGenerator lookups and leaper tables; new trusted primitives: trailing_zeros/leading_zeros/count_ones (proved equal to the model's), wrapping_mul, saturating_add",
+    "tools/rs2lean.py translates the straight-line bit-level functions (moves.rs mod compact and Move constructors/accessors, Square helpers, Evaluation::mate_in_ply/is_terminal) into lean/Wee/Gen/MoveFns.lean; trusted: its parser and the table of primitive mappings in tools/rs2lean.NOTES.md; the bridge to the hand model is proved (Wee/Proofs/MoveFnsBridge.lean); stage 2 (tools/rs2lean2.py → Wee/Gen/CoreFns.lean, bridge Wee/Proofs/CoreFnsBridge.lean): impl BitBoard, Board::new and occupancy accessors, CastleRights, State::by_performing_move, ZobristHasher::hash, AttackGenerator lookups and leaper tables; new trusted primitives: trailing_zeros/leading_zeros/count_ones (proved equal to the model's), wrapping_mul, saturating_add; stage 3a (tools/rs2lean3.py → Wee/Gen/GenMoves.lean, bridges Wee/Proofs/GenMovesBridge*.lean): all of movegen.rs incl. generation order and the legality filter (compute_legal_moves_model), AttackMap::from_occupancy, Board::piece_at/is_check/colored_attacks with the OnceCell read as compute-on-demand; stage 3b (tools/rs2lean_eval.py → Wee/Gen/EvalFns.lean, Wee/Proofs/EvalFnsBridge.lean): evaluator term functions bridged (f32 = the model's binary32 soft-float, literals as exact bit patterns); Evaluator::evaluate/estimate translated with the move-generation and attack queries as a seam, bridge pending",
     "correspondence check: hand-written executable Lean model vs the real Rust code on generated inputs (differential; as strong as the generators)",
     "Wee/Spec/*.lean is the reading of what the property means",
     "modelled, not verified: std (RwLock, channels, sort_by_cached_key, OnceCell, str slicing), rayon, the regex crate's conformance to Wee/Spec/Regex.lean on the one FEN literal, rand/rand_chacha, ciborium, rustc `as` casts and overflow-check semantics, IEEE-754 binary32 of the CPU",
@@ -51,6 +51,17 @@ def run(cmd, cwd=None, timeout=None, input_text=None, env=None):
 # ------------------------------------------------------------------------------------------------
 # build steps
 
+# which properties a later-stage translator's files are anchored in (board.rs / hasher.rs / attacks.rs / state.rs; movegen.rs;
+# eval/*.rs): everything that moves pieces for stages 2 and 3a, everything that evaluates for 3b
+_CHESS = {"C01", "C02", "C03", "C04", "C05", "C06", "C07", "C08", "C09", "C10", "C11", "C12", "C13", "C14", "C16", "C17", "C18", "C19"}
+TRANSLATOR_SCOPE = {
+    "rs2lean2.py": _CHESS,
+    "rs2lean3.py": _CHESS - {"C08", "C09"},
+    "rs2lean_eval.py": {"C03", "C04", "C05", "C06", "C07", "C13", "C17", "C18", "C19"},
+}
+TRANSLATOR_FAILURES = {}
+
+
 def step_extract():
     """tie (a). returns (ok, message, changed files)"""
     rc, out, err = run([sys.executable, os.path.join(VERIF, "tools", "extract.py")])
@@ -74,14 +85,31 @@ def step_extract():
     # stage 2 (tools/rs2lean2.py): `impl BitBoard`, the Index/Color/Piece helpers, CastleRights, Board::new and the occupancy
     # accessors, State::by_performing_move, ZobristHasher::hash, the AttackGenerator lookups and the leaper tables are
     # re-translated into Wee/Gen/CoreFns.lean; Wee/Proofs/CoreFnsBridge.lean proves them equal to the hand model
+    # A later-stage translator that cannot translate the current text breaks the tie of the properties ANCHORED in the files
+    # it reads (TRANSLATOR_SCOPE), not of every property: recorded in TRANSLATOR_FAILURES, judged by the caller
+    TRANSLATOR_FAILURES.clear()
     gen2 = os.path.join(LEAN, "Wee", "Gen", "CoreFns.lean")
     before2 = open(gen2).read() if os.path.exists(gen2) else ""
     rc3, out3, err3 = run([sys.executable, os.path.join(VERIF, "tools", "rs2lean2.py")])
     if rc3 != 0:
-        return False, ("TIE-BROKEN rs2lean2: " + (out3 + err3).strip())[-600:], changed
+        TRANSLATOR_FAILURES["rs2lean2.py"] = (out3 + err3).strip()[-600:]
     after2 = open(gen2).read() if os.path.exists(gen2) else ""
     if after2 != before2:
         changed = list(changed) + ["Wee/Gen/CoreFns.lean"]
+    # stage 3a (tools/rs2lean3.py): ALL of movegen.rs (pseudo-legal generators in generation order, the legality filter,
+    # compute_legal_moves), AttackGenerator::compute, AttackMap::from_occupancy, Board::piece_at / is_check / colored_attacks →
+    # Wee/Gen/GenMoves.lean, bridged in Wee/Proofs/GenMovesBridge*.lean (headline: compute_legal_moves_model);
+    # stage 3b (tools/rs2lean_eval.py): the static evaluator → Wee/Gen/EvalFns.lean, term functions bridged in
+    # Wee/Proofs/EvalFnsBridge.lean (Evaluator::evaluate / estimate / king-edge / StateVariation::from translated, bridges pending)
+    for tool, rel in (("rs2lean3.py", "GenMoves.lean"), ("rs2lean_eval.py", "EvalFns.lean")):
+        g = os.path.join(LEAN, "Wee", "Gen", rel)
+        b = open(g).read() if os.path.exists(g) else ""
+        rc4, out4, err4 = run([sys.executable, os.path.join(VERIF, "tools", tool)])
+        if rc4 != 0:
+            TRANSLATOR_FAILURES[tool] = (out4 + err4).strip()[-600:]
+        a = open(g).read() if os.path.exists(g) else ""
+        if a != b:
+            changed = list(changed) + ["Wee/Gen/" + rel]
     return True, "", changed
 
 
